@@ -458,10 +458,12 @@ def normalize(img, scale_func=None, mode="all", error_on_divide_by_zero=True):
             "One or more the scale factors are 0.0 and thus these"
             "entries will be skipped during normalization."
         )
-        non_zero_denom = ~zero_denom
-        centered_pixels[non_zero_denom] = (
-            centered_pixels[non_zero_denom] / scale_factor[non_zero_denom]
-        )
+        if mode == "per_channel":
+            non_zero_denom = ~zero_denom
+            centered_pixels[non_zero_denom] = (
+                centered_pixels[non_zero_denom] / scale_factor[non_zero_denom]
+            )
+        # in "all" mode the single scale factor is zero: nothing to scale
         return img.from_vector(centered_pixels)
     else:
         return img.from_vector(centered_pixels / scale_factor)
